@@ -263,14 +263,24 @@ func init() {
 			var out []Op
 			tag := uint32(5000)
 			dirs := []string{"/"}
+			streams := 0
 			for _, op := range ops {
 				out = append(out, op)
 				if op.K == "mkdir" {
 					dirs = append(dirs, op.P)
 				}
-				if r.Float64() < 0.25 {
+				switch op.K {
+				case "open":
+					streams++
+				case "h.close":
+					if streams > 0 {
+						streams--
+					}
+				}
+				// (KF6: no write call while a positioned read stream of the history is open)
+				if streams == 0 && r.Float64() < 0.25 {
 					tag += 10
-					out = append(out, Op{K: "archive", P: dirs[r.IntN(len(dirs))], N: 1 + r.IntN(6), D: &Data{Len: 1 + r.IntN(2000), Kind: []string{"text", "rand"}[r.IntN(2)], Tag: tag}})
+					out = append(out, Op{K: "archive", P: dirs[r.IntN(len(dirs))], N: []int{0, 1, 1, 2, 3, 4, 5, 6}[r.IntN(8)], D: &Data{Len: 1 + r.IntN(2000), Kind: []string{"text", "rand"}[r.IntN(2)], Tag: tag}}) // N=0: an empty batch appends nothing at all
 				}
 			}
 			c.Ops, c.S["style"] = out, u.Style
